@@ -21,7 +21,7 @@ REAL = ["pyvsc (all of src/vsc)", "PyBoolector"]
 STUB = ["user code (generated)", "stdout (sink)"]
 ASSUMPTIONS = ["statement shapes are those C01 validates; list elements reached through a list index "
                "are not referenced (the library raises NotImplementedError for them)"]
-REQUIRED_NONZERO = {"*": ["judged_calls", "probes", "probe_reject_expected", "probe_accept_expected",
+REQUIRED_NONZERO = {"*": ["witness_calls", "list_replacements", "rejected_appends", "judged_calls", "probes", "probe_reject_expected", "probe_accept_expected",
                           "sibling_trees", "nonrand_sub_assigns", "list_replacements"]}
 
 
